@@ -27,15 +27,20 @@ AccFinger(r) ==
   ELSE (IF e = "fail" /\ r.gen = "ok" THEN {<<"C03", "inaccessible-field-accepted", r.side \o "/" \o r.setting, r.id>>} ELSE {})
        \cup (IF e = "ok" /\ r.gen # "ok" THEN {<<"C03", "rejected-convertible", r.side \o "/" \o r.setting, r.id>>} ELSE {})
        \cup (IF r.gen = "ok" /\ ~r.compiles THEN {<<"C01", "does-not-compile", "acc/" \o r.side \o "/" \o r.setting, r.id>>} ELSE {})
+       \cup (IF r.side = "same-package" /\ r.gen = "ok" /\ r.compiles /\ r.res.secret # AccSecret([side |-> r.side, setting |-> r.setting])
+             THEN {<<"C05", IF r.setting = "none" THEN "same-named-field-not-copied" ELSE "ignored-field-assigned", "same-package/" \o r.setting, r.id>>} ELSE {})
+       \cup (IF r.side = "same-package" /\ r.gen = "ok" /\ r.compiles /\ r.res.open # 5 THEN {<<"C05", "same-named-field-not-copied", "same-package/Open", r.id>>} ELSE {})
 UpdFinger(r) ==
   LET p == r.prog IN
   IF r.gen = "panic" THEN {<<"C13", "generator-panic", r.why, r.id>>}
   ELSE IF r.gen # "ok" THEN {<<"C10", "update-method-rejected", "", r.id>>}
   ELSE IF ~r.compiles THEN {<<"C01", "does-not-compile", "update", r.id>>}
   ELSE IF r.panic THEN {<<"C10", "update-method-panics", "", r.id>>}
-  ELSE IF r.srcNil THEN (IF \E i \in 1..4 : r.post[i] # "keep" THEN {<<"C10", "nil-source-modified-target", "", r.id>>} ELSE {})
+  ELSE IF r.srcNil THEN (IF \E i \in (1..4) \cup {6, 7} : r.post[i] # "keep" THEN {<<"C10", "nil-source-modified-target", "", r.id>>} ELSE {})
   ELSE UNION {LET m == Must(p, UFields[i], Rng(r.nonzero)) IN
               IF m # "open" /\ r.post[i] # m THEN {<<"C10", IF m = "keep" THEN "field-overwritten" ELSE "field-not-updated", UFields[i], r.id>>} ELSE {} : i \in 1..4}
+       \cup UNION {LET m == Must(p, MFields[i], Rng(r.nonzero)) IN
+              IF m # "open" /\ r.post[5 + i] # m THEN {<<"C10", IF m = "keep" THEN "field-overwritten" ELSE "field-not-updated", MFields[i], r.id>>} ELSE {} : i \in 1..2}
        \cup (LET m == MustLS(p, Rng(r.nonzero)) IN
              IF m # "open" /\ r.post[5] # m THEN {<<"C10", IF m = "keep" THEN "field-overwritten" ELSE "field-not-updated", "LS", r.id>>} ELSE {})
 
